@@ -192,6 +192,24 @@ func runC09(c *Ctx) {
 					ok, why = false, "store to field "+key+" through a pointer that is neither a per-request object nor freshly allocated here"
 				}
 				c.obI("R09.1", st, "write-"+key, ok, "request-reachable code writes only per-request objects or objects it has just allocated — never a field of a shared structure", why)
+			case *ssa.Slice:
+				// (f) x[:0] of a slice the function did not make, then appended to: the "filter in place" idiom writes
+				// into the caller's backing array (e.g. the route's Produces list, shared by every request)
+				if k, isK := constInt(st.High); !isK || k != 0 || st.Low != nil {
+					continue
+				}
+				if _, isSl := st.X.Type().Underlying().(*types.Slice); !isSl {
+					continue
+				}
+				if isFresh(fn, st.X) {
+					continue
+				}
+				for _, ci := range callsIn(fn, "builtin append") {
+					if reachesThroughAppends(ci.Common().Args[0], st, map[ssa.Value]bool{}) {
+						nWrites++
+						c.obI("R09.1", ci, "append-into-foreign-storage", false, "request-reachable code never appends into x[:0] of a slice it did not make: that overwrites the elements of a backing array shared with the caller (and with every other request)", "in-place filter over "+describe(st.X))
+					}
+				}
 			case *ssa.MapUpdate:
 				// map held in a field of a repo struct or in a global
 				m := st.Map
@@ -226,6 +244,7 @@ func runC09(c *Ctx) {
 	ruleR09_2(c)
 	ruleR09_3(c)
 	ruleR09_45(c)
+	ruleMemoContextRooted(c, "R09.5")
 }
 
 // the one tabled exception of R09.1, checked rather than assumed.
@@ -608,6 +627,87 @@ func ctxChainHas(v ssa.Value, w *ssa.Call, depth int) bool {
 	for _, o := range originsOf(call.Call.Args[0]) {
 		if ctxChainHas(o.V, w, depth-1) {
 			return true
+		}
+	}
+	return false
+}
+
+// ruleMemoContextRooted (shared by C07 and C09): every context a memoising accessor writes into is derived — through
+// WithValue steps only — from the Context() of the request the accessor was GIVEN. A stage result cached by another
+// stage's private request copy therefore never leaks into the request handed back to the caller.
+func ruleMemoContextRooted(c *Ctx, rule string) {
+	p := c.P
+	for _, name := range []string{"(*rt/middleware.Context).ContentType", "(*rt/middleware.Context).RouteInfo", "(*rt/middleware.Context).ResponseFormat",
+		"(*rt/middleware.Context).Authorize", "(*rt/middleware.Context).BindAndValidate", "(*rt/middleware.Context).ResetAuth"} {
+		f := p.Fn(name)
+		var req *ssa.Parameter
+		for _, prm := range f.Params {
+			if typeStr(prm.Type()) == "*net/http.Request" {
+				req = prm
+			}
+		}
+		if req == nil {
+			fatalf("anchor: %s has no *http.Request parameter", name)
+		}
+		var rooted func(v ssa.Value, depth int) (bool, string)
+		rooted = func(v ssa.Value, depth int) (bool, string) {
+			if depth == 0 {
+				return false, "derivation too deep"
+			}
+			os := originsOf(v)
+			if len(os) == 0 {
+				return false, "no origin"
+			}
+			for _, o := range os {
+				call := asCall(o.V)
+				if call == nil {
+					return false, "origin " + describeOrigin(&o)
+				}
+				switch calleeName(&call.Call) {
+				case "(*net/http.Request).Context":
+					recv, _ := callArgs(&call.Call)
+					if ok, _ := allOrigins(recv, oIsValue(req)); !ok {
+						return false, "the context of a request other than the one given: " + describe(recv)
+					}
+				case "context.WithValue":
+					if ok, why := rooted(call.Call.Args[0], depth-1); !ok {
+						return false, why
+					}
+				default:
+					return false, "origin " + describeOrigin(&o)
+				}
+			}
+			return true, ""
+		}
+		n := 0
+		for _, ci := range callsIn(f, "context.WithValue") {
+			n++
+			ok, why := rooted(ci.Common().Args[0], 6)
+			c.obI(rule, ci, "memo-context-rooted-in-given-request", ok, "the context a stage result is stored into derives from the Context() of the request the accessor was given (through WithValue steps only), so the request handed back carries this stage's result on top of what the caller's request already carried — nothing cached by another stage's private copy", why)
+		}
+		c.obF(rule, f, "memo-writes", n >= 1, "the accessor stores its result in a derived context", "")
+	}
+}
+
+// reachesThroughAppends: v is target, or is built from it by phis and appends (the accumulator of a filter loop).
+func reachesThroughAppends(v, target ssa.Value, seen map[ssa.Value]bool) bool {
+	if v == target {
+		return true
+	}
+	if seen[v] {
+		return false
+	}
+	seen[v] = true
+	switch x := v.(type) {
+	case *ssa.Phi:
+		for _, e := range x.Edges {
+			if reachesThroughAppends(e, target, seen) {
+				return true
+			}
+		}
+	case *ssa.Call:
+		if calleeName(&x.Call) == "builtin append" {
+			return reachesThroughAppends(x.Call.Args[0], target, seen)
 		}
 	}
 	return false
